@@ -185,6 +185,10 @@ type Config struct {
 //go:norace
 func Reset(c Config) {
 	if s.mode == Controlled {
+		if m := s.threads[0]; m != nil && m.g != nil {
+			m.g.free() // the previous execution's main gate
+			m.g = nil
+		}
 		for i := 0; i < s.nthreads; i++ {
 			s.threads[i] = nil
 		}
@@ -357,8 +361,12 @@ func threadEnd(t *thread) {
 		s.cur = m
 		g := t.g
 		t.g = nil
+		// every signal this thread ever received was consumed by a wait, so the gate is clean; it goes back
+		// before main is woken (afterwards this goroutine must not touch scheduler state)
+		if g != nil {
+			g.free()
+		}
 		m.g.signal()
-		_ = g // gate may still be referenced; do not pool after abort
 		return
 	}
 	next := pickNext(nil)
